@@ -188,6 +188,7 @@ def run(res):
         res.count('status:%d' % status)
     res.sample({'stream_head': text[:200], 'chunks': len(sched['chunks']), 'status': status})
     stdin_eof(res, work)
+    status_after_errors(res, work)
     utf8_correspondence(res)
     newline_correspondence(res)
     res.rule = ('generated streams (messages + chatter, with and without final newline) written by a helper in 1..n chunks with delays (incl. byte-by-byte and mid-line splits), '
@@ -250,6 +251,26 @@ def stdin_eof(res, work):
         res.disagree('run mode with stdin at EOF does not exit with the program\'s status', dict(sched=sched, stdin='EOF'), 3,
                      [r.returncode, r.stderr[-300:]], sig={'category': 'exit-status', 'stdin': 'EOF', 'error': 'EOFError' if 'EOFError' in r.stderr else 'other'},
                      theorem='C13_exit_status')
+
+
+def status_after_errors(res, work):
+    """run mode sessions in which the TOOL reported errors (mistyped commands and a malformed matcher at the prompt, a message line
+    the decoder refuses): the exit status is still the program's, whatever was typed or printed"""
+    text = ('[1.000] wl_display@1.get_registry(new id wl_registry@2)\n[1.100] wl_registry@2.bind(2)\nchatter\n'
+            '[1.200]  -> wl_display@1.sync(new id wl_callback@3)\n')
+    hp = os.path.join(work, 'helper.py')
+    open(hp, 'w').write(HELPER)
+    for status, typed in ((0, 'lst\nq\n'), (0, 'list [\nfilter )\nquit\n'), (0, 'connection zzz\nxyz\nq\n'), (5, 'lst\nlist (\nq\n'), (0, 'q\n')):
+        sched = {'chunks': [[text.encode().hex(), 0]], 'status': status}
+        sp = os.path.join(work, 'sched.json')
+        json.dump(sched, open(sp, 'w'))
+        env = dict(os.environ, PYTHONPATH=common.REPO, WDV_SCHED=sp, WDV_DUMP=os.path.join(work, 'dump.json'))
+        r = subprocess.run([sys.executable, '-B', os.path.join(common.REPO, 'main.py'), '-C', '-b', 'wl_callback', '-r', sys.executable, hp],
+                           input=typed, capture_output=True, text=True, env=env, timeout=120)
+        res.evaluations += 1
+        if r.returncode != status:
+            res.disagree('run mode does not exit with the program\'s status after the tool reported errors', dict(sched=sched, stdin=typed), status,
+                         [r.returncode, (r.stdout + r.stderr)[-400:]], sig={'category': 'exit-status', 'stdin': 'commands with errors'}, theorem='C13_exit_status')
 
 
 def replay(dis):
